@@ -442,10 +442,10 @@ pub fn run(run: &Run) {
         ];
         (1u8..=6, any::<bool>(), prop::collection::vec(step, 1..=maxlen)).prop_map(|(peers, via_rr, steps)| Case { peers, via_rr, steps })
     };
-    run.prop_f("script", run.tier.pick(800, 10_000), sh, case, run_case);
-    run.prop("cap", run.tier.pick(3, 16), 3, any::<u8>().prop_map(|extra| CapCase { extra }), run_cap);
+    run.prop_f("script", run.tier.pick(16000, 100000), sh, case, run_case);
+    run.prop("cap", run.tier.pick(60, 160), 3, any::<u8>().prop_map(|extra| CapCase { extra }), run_cap);
     run.set_rule("sweep", "real clock, request timeout 40 ms: 1..12 DHT callers cancelled mid-request (+0..5 that time out normally), then one more request after 2× the timeout: the pending table must be empty");
-    run.prop("sweep", run.tier.pick(12, 120), sh, (any::<u8>(), any::<u8>()).prop_map(|(cancelled, completed)| SweepCase { cancelled, completed }), run_sweep);
+    run.prop("sweep", run.tier.pick(240, 1200), sh, (any::<u8>(), any::<u8>()).prop_map(|(cancelled, completed)| SweepCase { cancelled, completed }), run_sweep);
 }
 
 pub fn replay(run: &Run, sub: &str, case: &Value) -> Option<bool> {
